@@ -84,5 +84,12 @@ def run(rep, tier):
     rep.rule('C07-call-key', '`R()` on a parameterless rule requests the rule itself (same memo key as `R`)')
     from .. import routes
     routes.run(rep, 'C07', ['C07-call-key'])
+    # a rule handed to a template as an argument travels as the rule function itself: `q` inside the template
+    # then requests the same callable - the same memo key - as a plain reference to the rule (Ref skeletons,
+    # both conventions; rule shared with C13, where the same form makes the argument late-bound)
+    rep.rule('LATE-bound', 'a parameterless rule passed as a template argument is emitted as the callee a plain '
+                           'reference requests (same memo key), not wrapped in a call object')
+    from . import C13
+    C13.late_binding(rep)
     from .. import controls
     controls.trampoline_controls(rep)
